@@ -58,6 +58,7 @@ def check(rep, an, tier):
         if n == 0:
             rep.undecided("R-QTY", "membership operands share a frame", entry=entry, config=res.config, construct="in_hull(P_, B_)")
         CC.bounded_consistency(rep, res, entry, cfg["ub"])
+        solver_residual_tolerance(rep, res, entry)
         F.qty(rep, res, entry, allow=allow, subs=("mismatch", "literal"))
         R.rule_type_errors(rep, res, "SHAPE", "R-SHAPE", entry)
         R.rule_purity(rep, res, entry)
@@ -82,12 +83,15 @@ def check(rep, an, tier):
                 extra = dict(A=arr("self.A", S(("#2",), "SRC"), {"c": 1, "s": -1}, "GAIN", sign="NONNEG"),
                              K=arr("self.K", S(("#2",)), {"rho": 1, "c": -1}),
                              baseline=arr("self.baseline", S(("#2",)), U_CAPTURE, "BASE", sign="NONNEG"))
+            from .C12 import hooks as c12hooks
             ress = CC.relative_forwarding(rep, an, "in_hull", kws_of, {"in_hull_from_A", "get_P_from_A"}, tier, extra_fields=extra,
-                                          spec=spec, entry=f"ReceptorEstimator.in_hull[normalized={normalized},F={Fax}]")
+                                          spec=(c12hooks() if normalized else spec), entry=f"ReceptorEstimator.in_hull[normalized={normalized},F={Fax}]")
             for res in ress:
                 ent = f"ReceptorEstimator.in_hull[normalized={normalized},F={Fax}]"
                 CC.membership_frames(rep, res, ent)
                 CC.corner_subset(rep, res, ent)
+                if normalized:
+                    CC.zero_rows(rep, res, ent)
                 CC.dim1(rep, res, ent)
                 R.rule_purity(rep, res, ent)
                 F.qty(rep, res, ent, allow=allow, subs=("mismatch", "literal"))
@@ -96,3 +100,27 @@ def check(rep, an, tier):
     rep.require("R-FLOW", 30)
     rep.require("R-FORWARD", 20)
     rep.require("R-PURITY", 4)
+
+
+def solver_residual_tolerance(rep, res, entry):
+    """on the fallback path (unbounded sources, flat gamuts) membership is 'the non-negative least-squares residual is zero': a residual
+    that comes out of a numerical solver must not be compared with np.isclose's default absolute tolerance (1e-8) — cvxpy's default
+    QP solver (OSQP) stops at an absolute accuracy of about 1e-5, so in-bound captures are rejected"""
+    seen = set()
+    for ev in res.events("abs_tolerance"):
+        a, b = ev.d["operands"]
+        solved = [x for x in (a, b) if any(o.startswith("sol#") for o in x.flat().data)]
+        zero = [x for x in (a, b) if x.known and x.const == 0]
+        if not solved or not zero:
+            continue
+        k = (ev.loc, ev.text())
+        if k in seen:
+            continue
+        seen.add(k)
+        at = ev.d.get("atol")
+        st = None if at is not None else False
+        rep.check("R-VALUE", "a solver residual is not compared with the default absolute tolerance", st, where=ev.loc, construct=ev.text(),
+                  entry=entry, config=res.config,
+                  msg="membership on the fallback path is `np.isclose(residual norm, 0)` with the default atol=1e-8, but the residual is the "
+                      "output of cvxpy's default QP solver, whose absolute accuracy is about 1e-5: captures produced by intensities strictly "
+                      "inside the bounds are reported out of gamut (unbounded sources: 12–87 % accepted in an independent run-time probe)")
